@@ -36,7 +36,10 @@ def run(tier, seed):
                      max_hist=300 if q else 800)
     configs = [dict(backend="epoll"), dict(backend="epoll", threads=1), dict(backend="poll", tick_ns=1000000)] if q else \
               [dict(backend="epoll"), dict(backend="epoll", threads=1), dict(backend="epoll", changelist=1), dict(backend="poll", tick_ns=1000000),
-               dict(backend="select"), dict(backend="epoll", signalfd=1), dict(backend="poll", tick_ns=1000000, signalfd=1)]
+               dict(backend="select")]
+    # (signalfd bases are not forked here: with signalfd a delivery still pending when the signal event is deleted is handed to
+    #  the prior disposition - the default action kills the driver - which the self-pipe model of EventCore does not describe;
+    #  signalfd dispositions are C07's subject)
     scen, exp = [], []
     for h in hs:
         pts = fork_points(h)
